@@ -39,6 +39,8 @@ type textIn struct {
 	JValues  []jval    `json:"jvalues,omitempty"`
 	Sigs     []string  `json:"sigs,omitempty"`
 	Signers  []uint8   `json:"signers,omitempty"`
+	// packbytes: pass an empty non-nil signature slice instead of nil
+	EmptySigs bool `json:"empty_sigs,omitempty"`
 }
 
 type jval struct {
@@ -206,7 +208,7 @@ func textCase(in textIn, tags ...string) caseRec {
 		tags = append(tags, "out-"+dr.Kind)
 		coq := fmt.Sprintf("TDecode %s %s", coqJReport(in.Digest, in.Seq, in.Chan, in.VA, in.TS, in.JValues, in.Specimen), dr.coq(dc))
 		return caseRec{Input: in, Output: dr, Coq: coq, Tags: tags}
-	case "pack":
+	case "pack", "packbytes":
 		var digest ocr2types.ConfigDigest
 		db, _ := hex.DecodeString(in.Digest)
 		copy(digest[:], db)
@@ -237,6 +239,23 @@ func textCase(in textIn, tags ...string) caseRec {
 			enc = []byte("{}")
 		}
 		tcoq := fmt.Sprintf("{| pt_digest := %s; pt_seq := %s; pt_report := %s; pt_sigs := %s |}", coqHex(digest[:]), coqZu(in.Seq), coqHex(enc), coqSigs(sigs))
+		if in.Kind == "packbytes" {
+			// the exact bytes Pack returns (signature slice nil when there are none, or empty-but-non-nil on request)
+			if in.EmptySigs && len(sigs) == 0 {
+				sigs = []ocr2types.AttributedOnchainSignature{}
+			}
+			var packed []byte
+			err, panicked, _ := protect(func() error {
+				var e error
+				packed, e = llo.JSONReportCodec{}.Pack(digest, in.Seq, append([]byte(nil), enc...), sigs)
+				return e
+			})
+			if err != nil || panicked {
+				packed = nil
+			}
+			return caseRec{Input: in, Output: map[string]any{"packed": string(packed)}, Tags: append(tags, "packbytes"),
+				Coq: fmt.Sprintf("TPackBytes %s %s %s", tcoq, coqBool(sigs == nil), coqHex(packed))}
+		}
 		var packed []byte
 		pr, pc := resOut{Kind: "ok"}, ""
 		ur, uc := resOut{Kind: "err", Err: "EOther"}, ""
@@ -460,6 +479,10 @@ func genTextforms(seed int64, n int) []caseRec {
 			if in.Seq == 0 {
 				in.Seq = 1
 			}
+			cs = append(cs, textCase(in, "random"))
+			// the same tuple once more, for the exact bytes
+			in.Kind = "packbytes"
+			in.EmptySigs = r.Intn(2) == 0
 			cs = append(cs, textCase(in, "random"))
 		}
 	}
